@@ -263,7 +263,16 @@ def rule_twins(ctx):
     TW.twin_agreement(ctx, ctx.program, "TW", ("huginn_net_tcp", "huginn_net_http", "huginn_net_tls"))
 
 
+def rule_worker_survives(ctx):
+    """a packet of one connection cannot stop the worker that other connections are hashed to: process_packet answers `stop` only when
+    the result channel is closed (shared with C01.R7 / C10.R5)"""
+    from ..engine import report as R
+    from . import C01
+    C01.rule_liveness(R.Retag(ctx, "C01."))
+
+
 def run(ctx):
+    rule_worker_survives(ctx)
     rule_twins(ctx)
     rule_reader_state(ctx)
     rule_capture_loops(ctx)
